@@ -346,6 +346,8 @@ def call_clause(ex, cm, fname, available, partial=False):
     args = []
     for n in names:
         if n not in available:
+            if partial:
+                raise OutOfSubset(f'the loop contract {fname} refers to the local {n!r}, which the code no longer has')
             raise SystemExit(f'CHECKER-FAULT: clause {cm.name}.{fname} wants parameter {n!r}; available: {sorted(available)}')
         args.append(available[n])
     saved = ex.contracts.current
@@ -426,6 +428,7 @@ class LoopRun:
         lp = self.lp
         cid = self.contract.id
         self.inputs_env = dict(run.ghost.get('_input_values', {}))
+        self.inputs_env.update(run.ghost.get('_olds', {}))
         self.extra_env = {}
         if lp.fs:
             from . import fsmodel
@@ -616,11 +619,20 @@ def run_contract(table, registry, contract, feas_timeout_ms=2000, max_paths=400)
         run.ghost['_precondition_len'] = len(run.pc)
         # call the target
         fv = ex.func_of(fi)
-        if fi.node.args.args and contract.closure_env if hasattr(contract, 'closure_env') else False:
-            pass
         call_names = contract.call if contract.call is not None else list(contract.inputs.keys())
         args = [vals[n] for n in call_names]
         kwargs = {p: vals[n] for p, n in contract.kwargs.items()}
+        if contract.star:
+            from . import loops
+            args.append(P.StarPack(loops.as_seq(ex, vals[contract.star])))
+        if contract.starstar:
+            from . import loops
+            kwargs['**'] = loops.map_of(ex, vals[contract.starstar])
+        if contract.closure_vars:
+            cl = Frame(None, fi.module)
+            for vn, inp in contract.closure_vars.items():
+                cl.locals[vn] = vals[inp]
+            fv = FuncVal(fv.fi, cl, fv.defaults, fv.kwdefaults)
         outcome = {'kind': None}
         try:
             if getattr(contract, 'closure', None):
@@ -694,6 +706,8 @@ def run_contract(table, registry, contract, feas_timeout_ms=2000, max_paths=400)
     finally:
         registry.current = None
     res.path_count = len(paths)
+    if not paths:
+        res.out_of_subset = 'no feasible path: the precondition or a loop invariant of the contract is contradictory'
     for p in paths:
         res.paths.append({'kind': p.kind, 'tags': p.tags})
         for ob in p.run.obligations:
